@@ -207,6 +207,19 @@ static void p0_run(uint64_t idx, vh_rng_t * rng) {
     v = vh_ctx_new(T.cmds, 600, 16, 256);
     for (mi = 0; mi < nmsg; mi++) {
     int via_flush = nmsg > 1 && vh_chance(rng, 1, 2);
+    if (mi > 0 && vh_chance(rng, 1, 2)) {
+        /* the application installs another command table on the live context (language / compatibility mode): the table array is rewritten
+         * in place or the other of two arrays is assigned to context->cmdlist - registers, errors and the context itself stay */
+        static scpi_command_t other[MAXT + 1]; scpi_command_t * dst = (v->ctx->cmdlist == T.cmds && vh_chance(rng, 1, 2)) ? other : T.cmds;
+        int some = vh_chance(rng, 1, 5);
+        gen_table(rng);
+        for (i = 0; i < T.n; i++) Tnull[i] = some && vh_chance(rng, 1, 3);
+        for (i = 0; i < T.n; i++) { dst[i].pattern = T.pat[i]; dst[i].callback = Tnull[i] ? NULL : handler; dst[i].tag = i + 1; }
+        dst[T.n].pattern = NULL; dst[T.n].callback = NULL; dst[T.n].tag = 0;
+        v->ctx->cmdlist = dst;
+        vh_buf_reset(&tt); table_text(&tt);
+        vh_count("tables.installed_on_a_live_context", 1);
+    }
     gen_message(rng, &msg);
     nlines = 0; first_diff_unit = -1;
     vh_ctx_clear_capture(v);
@@ -306,6 +319,6 @@ int main(int argc, char ** argv) {
     vh_decoy_enable(7); vh_require("decoy.messages_run_on_a_second_context"); vh_require("unit.defined.relative.after-defined-compound"); vh_require("unit.defined.relative.after-undefined-compound");
     vh_require("unit.defined.relative.after-common"); vh_require("unit.undefined.relative.after-defined-compound");
     vh_require("unit.defined.absolute.after-defined-compound"); vh_require("unit.overlap_first_match_matters");
-    vh_require("handler.iscmd_checks"); vh_require("messages.ended_by_zero_length_input_call"); vh_require("messages.on_a_context_that_served_earlier_messages"); vh_require("unit.first_match_without_handler_shadows_later_handler"); vh_require("tables.from_shipped_patterns");
+    vh_require("handler.iscmd_checks"); vh_require("messages.ended_by_zero_length_input_call"); vh_require("tables.installed_on_a_live_context"); vh_require("messages.on_a_context_that_served_earlier_messages"); vh_require("unit.first_match_without_handler_shadows_later_handler"); vh_require("tables.from_shipped_patterns");
     return vh_main(argc, argv, "C02", phases, 1);
 }
